@@ -115,7 +115,8 @@ func c20Run(r *core.Run) {
 	lookups := t.Chance(1, 2, "key-lookups")
 	var lookupAt []time.Duration
 	if lookups {
-		for i := 0; i < 4+t.Choose(20, "nlookups"); i++ {
+		nlook := 4 + t.Choose(20, "nlookups")
+		for i := 0; i < nlook; i++ {
 			lookupAt = append(lookupAt, time.Duration(t.Choose(int(horizon/(10*time.Millisecond))+1, "lookup-at"))*10*time.Millisecond+3*time.Millisecond)
 		}
 		sort.Slice(lookupAt, func(i, j int) bool { return lookupAt[i] < lookupAt[j] })
